@@ -173,6 +173,15 @@ def one(job):
     return out
 
 
+def span_program(nfields, lead):
+    """a type error whose range (a struct literal) spans nfields + 2 lines and starts at line lead + 2: exercises the snippet renderer's
+    omission row (`...`) and its line-number gutter at every span length and across the 1/2/3-digit line-number boundaries"""
+    fs = [f"f{i}" for i in range(nfields)]
+    lines = ["// pad"] * lead + ["main :: () -> i32 {", "    total : i32 = Config.{"] + [f"        {f} = {i}," for i, f in enumerate(fs)]
+    lines += ["    };", "    total", "}", "Config :: struct {"] + [f"    {f}: i32," for f in fs] + ["};"]
+    return "\n".join(lines) + "\n"
+
+
 def make_inputs(tier, seed):
     rng = C.Rng(seed, 6)
     corpus = C.corpus_texts()
@@ -199,6 +208,9 @@ def make_inputs(tier, seed):
     for kind in range(20):
         for depth in ((3, 40, 200) if tier == "quick" else (1, 2, 5, 20, 60, 120, 200)):
             inputs.append((nesting(kind, depth), "nesting"))
+    for nfields in range(0, 25 if tier == "quick" else 40):
+        for lead in ((0, 2, 88, 97) if tier == "quick" else (0, 1, 2, 5, 80, 88, 93, 97, 99, 985, 997)):
+            inputs.append((span_program(nfields, lead), "diag_span"))
     return inputs
 
 
